@@ -147,6 +147,7 @@ func c05(c *Ctx) {
 	r.Rule("R5.4", "in the stream builder every load-reaching call other than the size query is dominated by the not-skipped edge of the comparison of the read position with the child's end; the size query has a load-free success path via Tsize and one via BlockSizes")
 	r.Rule("R5.6", "positioning never consumes content: no Seek method of the file readers can reach a Read method (or an io.Copy/CopyN/ReadAll/ReadFull drain) in the closed-world call graph — a seek may query sizes but must not read through chunks; and no Read method can reach such a drain: a read fetches what it delivers into the caller's buffer, it never catches up by discarding")
 	r.Rule("R5.7", "single descent: the name-lookup operations and the shard loaders cannot reach a walker (a function that issues loads inside a loop); a lookup loads one shard per level and never a subtree")
+	r.Rule("R5.8", "one descent per lookup: a function that hands a freshly allocated hash cursor to the descent does so at most once on any path (a retry under another spelling of the name walks — and loads — a second hash path)")
 	r.Rule("R5.5", "KnownReifiers[\"unixfs\"] is a function that dispatches through a table all of whose members are load-free, distinct from the table used by \"unixfs-preload\"")
 
 	fetch := c.G.Fetchers(core.ReaderPkgs)
@@ -293,6 +294,7 @@ func c05(c *Ctx) {
 	r.Floor("R5.3", n53, 1)
 
 	c.checkSeekNeverReads()
+	c.checkSingleDescentCall()
 	c.checkSingleDescent(fetch)
 	c.checkSkipBeforeOpen(reach, fetch)
 
@@ -370,6 +372,33 @@ func (c *Ctx) derivesFromHashBits(args []ssa.Value) bool {
 		}
 		seen[v] = true
 		switch x := v.(type) {
+		case *ssa.Parameter:
+			// handed through an unexported helper: every call site must pass a value that derives from the hash bits
+			fn := x.Parent()
+			if fn == nil || (fn.Object() != nil && fn.Object().Exported()) {
+				return false
+			}
+			pi := -1
+			for i, q := range fn.Params {
+				if q == x {
+					pi = i
+				}
+			}
+			n := 0
+			for _, e := range c.G.In[fn] {
+				cs, ok := e.Site.(ssa.CallInstruction)
+				if e.Caller.Synthetic != "" && len(c.G.In[e.Caller]) == 0 {
+					continue
+				}
+				if !ok || cs.Common().StaticCallee() != fn || pi < 0 || pi >= len(cs.Common().Args) {
+					return false
+				}
+				n++
+				if !rec(cs.Common().Args[pi], d+1) {
+					return false
+				}
+			}
+			return n > 0
 		case *ssa.Call:
 			if f := x.Call.StaticCallee(); f != nil && f.Name() == "Next" && f.Signature.Params().Len() == 1 && f.Signature.Results().Len() == 2 && isBasic(f.Signature.Results().At(0).Type(), types.Int) {
 				return true
@@ -545,6 +574,30 @@ func callFeeding(v ssa.Value, d int) *ssa.Call {
 		return nil
 	}
 	switch x := v.(type) {
+	case *ssa.Field:
+		// a member of a struct result: child.size with child := q(…)
+		return callFeeding(x.X, d+1)
+	case *ssa.UnOp:
+		// the same through a local cell: child := q(…) held in an addressable local, child.size read from it
+		if x.Op == token.MUL {
+			addr := x.X
+			if fa, ok := addr.(*ssa.FieldAddr); ok {
+				addr = fa.X
+			}
+			if al, ok := addr.(*ssa.Alloc); ok {
+				var src ssa.Value
+				n := 0
+				for _, ref := range *al.Referrers() {
+					if st, ok := ref.(*ssa.Store); ok && st.Addr == ssa.Value(al) {
+						n++
+						src = st.Val
+					}
+				}
+				if n == 1 {
+					return callFeeding(src, d+1)
+				}
+			}
+		}
 	case *ssa.Extract:
 		if c, ok := x.Tuple.(*ssa.Call); ok {
 			return c
@@ -1142,6 +1195,33 @@ func (c *Ctx) helperDefersChildren(fn *ssa.Function, ci ssa.CallInstruction, ski
 			case bo.Op == token.GTR && isPos(bo.X) && isStart(bo.Y):
 				return true, true
 			}
+			// the difference form: the helper receives skip = position - start and acts only when skip > 0
+			isSkip := func(v ssa.Value) bool {
+				p, ok := v.(*ssa.Parameter)
+				if !ok {
+					return false
+				}
+				for i, q := range h.Params {
+					if q != p || i >= len(ci.Common().Args) {
+						continue
+					}
+					sub, ok := core.Unconv(ci.Common().Args[i]).(*ssa.BinOp)
+					if !ok || sub.Op != token.SUB || !starts[sub.Y] {
+						continue
+					}
+					u, ok := sub.X.(*ssa.UnOp)
+					if ok && c.fieldOfAddr(fn, u.X) != nil && containsVar(posFields, c.fieldOfAddr(fn, u.X)) {
+						return true
+					}
+				}
+				return false
+			}
+			if k, isK := core.ConstInt(bo.Y); isK && k == 0 && bo.Op == token.GTR && isSkip(bo.X) {
+				return true, true
+			}
+			if k, isK := core.ConstInt(bo.X); isK && k == 0 && bo.Op == token.LSS && isSkip(bo.Y) {
+				return true, true
+			}
 			return false, false
 		})
 		if !ok {
@@ -1197,4 +1277,65 @@ func derivesFromBlockSizes(v ssa.Value, depth int) bool {
 		}
 	}
 	return false
+}
+
+// checkSingleDescentCall implements R5.8.
+func (c *Ctx) checkSingleDescentCall() {
+	r := c.R
+	n := 0
+	for _, fn := range c.G.Funcs() {
+		rel, ok := c.P.PkgOf(fn)
+		if !ok || rel != "hamt" || fn.Synthetic != "" || len(fn.Blocks) == 0 {
+			continue
+		}
+		// descent calls in fn: static repository callee taking a stateful cursor that is allocated in fn
+		isDescent := func(ins ssa.Instruction) bool {
+			call, ok := ins.(*ssa.Call)
+			if !ok || call.Call.StaticCallee() == nil {
+				return false
+			}
+			if _, isRepo := c.P.PkgOf(call.Call.StaticCallee()); !isRepo {
+				return false
+			}
+			for _, a := range call.Call.Args {
+				if c.statefulCursorPtr(a.Type()) {
+					if al, fresh := a.(*ssa.Alloc); fresh && al.Parent() == fn {
+						return true
+					}
+				}
+			}
+			return false
+		}
+		has := false
+		for _, ci := range core.CallsIn(fn) {
+			if isDescent(ci.(ssa.Instruction)) {
+				has = true
+			}
+		}
+		if !has {
+			continue
+		}
+		n++
+		worst := 0
+		complete := core.EnumPaths(fn, 2, 60000, func(path []*ssa.BasicBlock) {
+			k := 0
+			for _, b := range path {
+				for _, ins := range b.Instrs {
+					if isDescent(ins) {
+						k++
+					}
+				}
+			}
+			if k > worst {
+				worst = k
+			}
+		})
+		key := core.FuncName(fn) + "/one-descent"
+		if !complete {
+			r.Undecided("R5.8", key, c.P.Pos(fn.Pos()), "path enumeration exceeded its bound")
+			continue
+		}
+		r.Check(worst <= 1, "R5.8", key, c.P.Pos(fn.Pos()), "at most one descent per call", fmt.Sprintf("a path starts %d descents: blocks on a second hash path are fetched for one lookup", worst))
+	}
+	r.Floor("R5.8", n, 1)
 }
